@@ -45,8 +45,20 @@ def check(ctx, idx):
     ncls = rng.choice([2, 2, 3, 4])
     X, y = models.gen_classification(rng, n_classes=ncls, n_features=rng.randint(3, ctx.scale(8, 12)), per_class=rng.randint(5, 9))
     nf = X.shape[1]
-    bk = rng.choice(models.BASIS_KINDS)
+    bk = rng.choice(models.BASIS_KINDS + ["custom_int", "custom_float"])
     nm = None if bk == "identity" else rng.randint(2, min(X.shape[0], nf))
+    custom_U = None
+    if bk.startswith("custom"):
+        # a user-supplied mode matrix (pysensors.basis.Custom, fitted beforehand): ±1 / 0 entries of full column rank,
+        # stored with an integer or a float64 dtype – the same numbers, hence the same basis
+        for _ in range(20):
+            custom_U = np.array([[rng.choice([-1, 1, 1, 0]) for _ in range(nm)] for _ in range(nf)], dtype=np.int64)
+            if np.linalg.matrix_rank(custom_U) == nm and np.linalg.cond(custom_U.astype(float)) < 50:
+                break
+        else:
+            bk, custom_U = "svd", None
+        if custom_U is not None and bk == "custom_float":
+            custom_U = custom_U.astype(float)
     alpha = rng.choice([0.01, 0.05, 0.1, 0.3, 1.0])
     # documented optimizer keywords are forwarded to the solver: for two classes the fit is still exact (without an
     # intercept the common offset is simply 0); for more classes the objective is the un-centred one
@@ -60,7 +72,13 @@ def check(ctx, idx):
             "fit_kwargs": dict(kws)}
     ctx.evaluations += 1
     ctx.count(f"{bk}/{'binary' if ncls == 2 else 'multi'}{'' if centred else '/no_intercept'}")
-    model = SSPOC(basis=models.make_basis(bk, nm), l1_penalty=alpha, n_sensors=min(2, nf))
+    if custom_U is not None:
+        from pysensors.basis import Custom
+        base["custom_U"] = custom_U.tolist()
+        kws["prefit_basis"] = True
+        model = SSPOC(basis=Custom(custom_U.copy(), n_basis_modes=nm).fit(), l1_penalty=alpha, n_sensors=min(2, nf))
+    else:
+        model = SSPOC(basis=models.make_basis(bk, nm), l1_penalty=alpha, n_sensors=min(2, nf))
     import pysensors.utils._optimizers as om
     seen = []
     orig_mtl = om.MultiTaskLasso
